@@ -84,7 +84,8 @@ theorem alias_table_covers_the_code :
     (["v2/object.go", "v2/list.go", "v2/set.go", "v2/multiset.go", "v2/diff_common.go", "v2/diff_read.go",
       "lib/object.go", "lib/list.go", "lib/set.go", "lib/multiset.go", "lib/diff_common.go", "lib/diff_read.go"].all
         (fun f => Gen.pathSites.any (fun s => s.1.startsWith f && s.2.1 == .store))) = true ∧
-    (["v2/diff_write.go:Diff.RenderPatch", "v2/diff_write.go:Diff.RenderMerge", "lib/diff_write.go:Diff.RenderMerge"].all
+    (["v2/diff_write.go:Diff.RenderPatch", "v2/diff_write.go:Diff.RenderMerge", "lib/diff_write.go:Diff.RenderMerge",
+      "v2/patch_common.go:patchAll", "lib/patch_common.go:patchAll"].all
         (fun f => Gen.pathSites.any (fun s => s.1.startsWith f && s.2.1 == .write))) = true :=
   ⟨Jd.PathSites.table_covers_the_diff_code.1, Jd.PathSites.table_covers_the_diff_code.2.2⟩
 
